@@ -1,4 +1,5 @@
 """One module per property; each exposes META (dict) and cases(tier) -> [Case]."""
 MODULES = {
+    "C01": "harness.c01_decode",
     "C05": "harness.c05_frame",
 }
